@@ -63,6 +63,17 @@ class C02(FprCheck):
             yield {"t": "spec", "ref": {"overlap": base, "mode": ["pair", "pair", "allzero"][k % 3], "seed": rng.randrange(1000)}, "conf": 0, "tr": None,
                    "opts": o, "queries": MG.gen_queries(rng, o, 1)}
 
+        # heavy atoms carrying an isotope label whose exact mass and mass number fall on different sides of an integer offset from the
+        # standard weight (11C, 32P, 33P, 75Se, 25Na) beside the common labels (13C, 15N, 18O): both invariant schemes
+        for smi in ("[11CH3]Oc1ccccc1", "CO[32P](=O)(O)O", "CO[33P](=O)(O)O", "C[75Se]CC[C@H](N)C(=O)O", "[13CH3]C(=O)[15NH2]", "CC(=[18O])O", "[25Na+].[O-]C(C)=O"):
+            for inv in (True, False):
+                ref = {"smiles": smi, "nconf": 1, "seed": 7, "hs": True}
+                o = MG.gen_opts(rng)
+                o["rdkit_invariants"] = inv
+                o["level"] = rng.choice([0, 1, 2])
+                self.count("isotope-labelled-heavy-atoms")
+                yield {"t": "spec", "ref": ref, "conf": 0, "tr": None, "opts": o, "queries": MG.gen_queries(rng, o, 1)}
+
     def model_ops(self, case):
         if case.get("t") == "preempt":
             return [{"op": "fpr.hash", "words": []}]
